@@ -468,7 +468,10 @@ class ABCTune(object):
   # Pattern for matching variant endings with an associated bar symbol.
   BAR_AND_VARIANT_ENDINGS_PATTERN = re.compile(r'(:*)[\[\]|]+\s*([0-9,-]+)')
   # Pattern for matching repeat symbols with an associated bar symbol.
-  BAR_AND_REPEAT_SYMBOLS_PATTERN = re.compile(r'(:*)([\[\]|]+)(:*)')
+  # A '[' that opens an inline information field (e.g. '|[K:G]') is not part
+  # of the bar symbol.
+  BAR_AND_REPEAT_SYMBOLS_PATTERN = re.compile(
+      r'(:*)((?:\[(?![A-Za-z]:)|[\]|])+)(:*)')
   # Pattern for matching repeat symbols without an associated bar symbol.
   REPEAT_SYMBOLS_PATTERN = re.compile(r'(:+)')
 
